@@ -57,13 +57,17 @@ func (x *Exec) evalInstr(st *State, fr *Frame, b *ssa.BasicBlock, idx int, v ssa
 		et := in.Type().Underlying().(*types.Slice).Elem()
 		ln := x.val(st, fr, in.Len).(T)
 		if isByte(et) {
-			if n, ok := isLit(ln); ok && n <= 64 {
+			if n, ok := isLit(ln); ok && n <= 64 && !copyDestination(in) {
 				z := make([]byte, n)
 				fr.env[in] = T{S: smtStrLit(z), So: SString, Segs: []Seg{{Kind: "const", Lit: z, S: smtStrLit(z)}}}
 			} else {
 				// mutable byte buffer of symbolic length
 				o := x.e.newObj(st, app(SString, "zeros", ln))
 				x.e.objElem[o] = et
+				if st.Bufs == nil {
+					st.Bufs = map[int]*bufInfo{}
+				}
+				st.Bufs[o] = &bufInfo{N: ln}
 				fr.env[in] = &SliceV{Back: o, Off: IntLit(0), Len: ln, Elem: et}
 			}
 			break
@@ -1002,6 +1006,9 @@ func (x *Exec) coerceBufs(st *State, args []Val) []Val {
 					out = append([]Val(nil), args...)
 				}
 				if sl.Off.S == "0" {
+					if seg, ok := x.bufSegments(st, sl, cur); ok {
+						cur = seg
+					}
 					out[i] = cur
 				} else {
 					out[i] = app(SString, "str.substr", cur, sl.Off, sl.Len)
@@ -1146,12 +1153,14 @@ func (x *Exec) invoke(st *State, fr *Frame, ci *callInfo, recv Val, recvT types.
 		}
 	}
 	if h, ok := ifaceModels[key]; ok {
+		args = x.coerceBufs(st, args)
 		h(x, st, ci, recv, args, func(s2 *State, r Val) { k(s2, s2.top(), r) })
 		return
 	}
 	// models keyed by method name on opaque receivers
 	if ov, ok := recv.(*OpaqueV); ok {
 		if h, ok := ifaceModels["opaque:"+ov.Tag+"."+m.Name()]; ok {
+			args = x.coerceBufs(st, args)
 			h(x, st, ci, recv, args, func(s2 *State, r Val) { k(s2, s2.top(), r) })
 			return
 		}
@@ -1159,8 +1168,23 @@ func (x *Exec) invoke(st *State, fr *Frame, ci *callInfo, recv Val, recvT types.
 	if ov, ok := recv.(*OpaqueV); ok && m.Name() == "Handle" && strings.Contains(ov.Tag, "Handle(") {
 		// bind: Keeper.ExternalEventProcessor is assigned only in SetStakingKeeper with an ExternalEventProcessor value
 		// (checked by the F obligation bind/ExternalEventProcessor)
+		inOracle := false
+		for f := fr.fn; f != nil; f = f.Parent() {
+			if f.Pkg != nil && strings.Contains(f.Pkg.Pkg.Path(), "/x/oracle") {
+				inOracle = true
+			}
+		}
 		for _, p := range x.e.prog.AllPackages() {
-			if p.Pkg != nil && strings.HasSuffix(p.Pkg.Path(), "/x/mhub2/keeper") {
+			if inOracle && p.Pkg != nil && strings.HasSuffix(p.Pkg.Path(), "/x/oracle/keeper") {
+				// bind: the oracle Keeper.AttestationHandler is assigned only in NewKeeper with an AttestationHandler value
+				pt := p.Type("AttestationHandler").Type()
+				fn := x.e.prog.LookupMethod(pt, p.Pkg, "Handle")
+				x.e.note("bind: oracle Keeper.AttestationHandler.Handle = (AttestationHandler).Handle (field written only in NewKeeper)")
+				rv := x.e.freshVal(st, "handler", pt)
+				x.callFunc(st, fr, ci, fn, append([]Val{rv}, args...), k)
+				return
+			}
+			if !inOracle && p.Pkg != nil && strings.HasSuffix(p.Pkg.Path(), "/x/mhub2/keeper") {
 				pt := p.Type("ExternalEventProcessor").Type()
 				fn := x.e.prog.LookupMethod(pt, p.Pkg, "Handle")
 				x.e.note("bind: Keeper.ExternalEventProcessor.Handle = (ExternalEventProcessor).Handle (field written only in SetStakingKeeper)")
@@ -1272,8 +1296,8 @@ func (x *Exec) builtin(st *State, fr *Frame, ci *callInfo, name string, args []V
 				}
 			}
 		}
-		if ok && ok2 && isByte(dst.Elem) && dst.Off.S == "0" {
-			if av, isArr := st.Heap[dst.Back].(*ArrV); isArr {
+		if ok && ok2 && isByte(dst.Elem) {
+			if av, isArr := st.Heap[dst.Back].(*ArrV); isArr && dst.Off.S == "0" {
 				// copy into a local byte array: element i becomes src[i] for i < len(src)
 				n := &ArrV{Elem: av.Elem}
 				sl := StrLen(src)
@@ -1297,7 +1321,15 @@ func (x *Exec) builtin(st *State, fr *Frame, ci *callInfo, name string, args []V
 				return app(SInt, "min_", dst.Len, sl)
 			}
 			if cur, isT := st.Heap[dst.Back].(T); isT && cur.So == SString {
-				if dst.Len.S == StrLen(src).S {
+				if bi := st.Bufs[dst.Back]; bi != nil {
+					if off, lit := isLit(dst.Off); lit {
+						bi = &bufInfo{N: bi.N, Writes: append(append([]bufWrite(nil), bi.Writes...), bufWrite{Off: off, Src: src, ToEnd: dst.Len.S == Sub(bi.N, dst.Off).S || (off == 0 && dst.Len.S == bi.N.S)})}
+					} else {
+						bi = &bufInfo{N: bi.N, Broken: true}
+					}
+					st.Bufs[dst.Back] = bi
+				}
+				if dst.Len.S == StrLen(src).S && dst.Off.S == "0" {
 					// destination has exactly the source's length: a full copy
 					st.Heap[dst.Back] = T{S: src.S, So: SString}
 					if st.Written != nil {
@@ -1306,6 +1338,14 @@ func (x *Exec) builtin(st *State, fr *Frame, ci *callInfo, name string, args []V
 					return dst.Len
 				}
 				n := app(SInt, "min_", dst.Len, StrLen(src))
+				if dst.Off.S != "0" {
+					// write into the middle of the buffer: prefix ++ copied bytes ++ rest
+					st.Heap[dst.Back] = app(SString, "str.++", app(SString, "str.substr", cur, IntLit(0), dst.Off), app(SString, "str.substr", src, IntLit(0), n), app(SString, "str.substr", cur, Add(dst.Off, n), Sub(dst.Len, n)))
+					if st.Written != nil {
+						st.Written[dst.Back] = true
+					}
+					return n
+				}
 				st.Heap[dst.Back] = app(SString, "str.++", app(SString, "str.substr", src, IntLit(0), n), app(SString, "str.substr", cur, n, Sub(dst.Len, n)))
 				if st.Written != nil {
 					st.Written[dst.Back] = true
@@ -1399,4 +1439,155 @@ func (x *Exec) appendOp(st *State, args []Val, t types.Type) Val {
 func isExecLevel(v Val) bool {
 	_, ok := v.(*ArrV)
 	return ok
+}
+
+// ---------------------------------------------------------------------------
+// Byte buffers filled by copy() at constant offsets (key builders of the oracle module).
+
+type bufWrite struct {
+	Off   int64
+	Src   T
+	ToEnd bool // the destination slice ran to the end of the buffer
+}
+
+type bufInfo struct {
+	N      T
+	Writes []bufWrite
+	Broken bool
+}
+
+// segLitLen: the length of a byte string when it is known from its segment structure.
+func segLitLen(t T) (int64, bool) {
+	if t.Segs == nil {
+		return 0, false
+	}
+	var n int64
+	for _, s := range t.Segs {
+		switch s.Kind {
+		case "const":
+			n += int64(len(s.Lit))
+		case "u64":
+			n += 8
+		case "fill32":
+			n += 32
+		default:
+			return 0, false
+		}
+	}
+	return n, true
+}
+
+// bufSegments: the contents of a buffer written left to right at constant offsets, as a concatenation of pieces.
+// Piece i covers [o_i, o_{i+1}) and holds the first K bytes of src_i padded with zeros (fixw), provided no earlier
+// write reaches into it or src_i covers it entirely. The last piece must be covered by its source: that condition
+// is emitted as an obligation ("buffer-layout") when it is not syntactically evident.
+func (x *Exec) bufSegments(st *State, sl *SliceV, cur T) (T, bool) {
+	bi := st.Bufs[sl.Back]
+	if bi == nil || bi.Broken || len(bi.Writes) == 0 || sl.Len.S != bi.N.S {
+		return T{}, false
+	}
+	ws := bi.Writes
+	if ws[0].Off != 0 {
+		return T{}, false
+	}
+	for i := range ws {
+		if !ws[i].ToEnd || (i > 0 && ws[i].Off <= ws[i-1].Off) {
+			return T{}, false
+		}
+	}
+	var segs []Seg
+	var parts []T
+	for i, w := range ws {
+		ll, known := segLitLen(w.Src)
+		last := i == len(ws)-1
+		if !last {
+			k := ws[i+1].Off - w.Off
+			covers := known && ll >= k
+			if !covers {
+				// no earlier write may reach into this piece
+				for j := 0; j < i; j++ {
+					lj, kj := segLitLen(ws[j].Src)
+					if !kj || lj > w.Off-ws[j].Off {
+						// an earlier source of unknown length is harmless only if every piece in between is covered;
+						// keep it simple: give up
+						if !(kj) && j < i {
+							// the piece of j itself was fixed-width (fixw); its overflow is overwritten only by covering pieces
+							allCovered := true
+							for m := j + 1; m <= i; m++ {
+								lm, km := segLitLen(ws[m].Src)
+								var width int64
+								if m < len(ws)-1 {
+									width = ws[m+1].Off - ws[m].Off
+								}
+								if !(km && m < len(ws)-1 && lm >= width) {
+									allCovered = false
+								}
+							}
+							if allCovered {
+								continue
+							}
+						}
+						return T{}, false
+					}
+				}
+			}
+			var piece T
+			if known && ll == k {
+				piece = w.Src
+				segs = append(segs, w.Src.Segs...)
+			} else {
+				x.e.declareFun("fixw", "(String Int) String")
+				x.e.addAxiom("(assert (forall ((s String) (n Int)) (! (= (fixw s n) (str.substr (str.++ s (zeros n)) 0 n)) :pattern ((fixw s n)))))")
+				piece = app(SString, "fixw", w.Src, IntLit(k))
+				segs = append(segs, Seg{Kind: "str", S: piece.S})
+			}
+			parts = append(parts, piece)
+			continue
+		}
+		// last piece: the source must reach the end of the buffer, and nothing before it may be left over beyond it
+		cond := Ge(StrLen(w.Src), Sub(bi.N, IntLit(w.Off)))
+		x.emit(st, "buffer-layout", x.oblName("buffer-layout"), "", cond)
+		st.assume(cond, "buffer layout: the last copied value reaches the end of the key buffer")
+		piece := app(SString, "str.substr", w.Src, IntLit(0), Sub(bi.N, IntLit(w.Off)))
+		if w.Src.Segs != nil {
+			segs = append(segs, w.Src.Segs...)
+			piece = w.Src
+		} else {
+			piece = w.Src
+			segs = append(segs, Seg{Kind: "str", S: w.Src.S})
+		}
+		// with len(src) >= N - off and N = off + len(src) by construction the piece is src itself; require equality
+		eq := Eq(StrLen(w.Src), Sub(bi.N, IntLit(w.Off)))
+		x.emit(st, "buffer-layout", x.oblName("buffer-layout-exact"), "", eq)
+		st.assume(eq, "buffer layout: the last copied value ends exactly at the end of the key buffer")
+		parts = append(parts, piece)
+	}
+	res := app(SString, "str.++", parts...)
+	if len(parts) == 1 {
+		res = parts[0]
+	}
+	res.Segs = segs
+	x.e.note("byte buffers filled by copy() at increasing constant offsets are read as the concatenation of their pieces (fixed-width pieces are the source cut or zero-padded to the width)")
+	return res, true
+}
+
+// copyDestination: the made slice (or a reslice of it) is the destination of a copy().
+func copyDestination(v ssa.Value) bool {
+	refs := v.Referrers()
+	if refs == nil {
+		return false
+	}
+	for _, r := range *refs {
+		switch rr := r.(type) {
+		case *ssa.Call:
+			if b, ok := rr.Common().Value.(*ssa.Builtin); ok && b.Name() == "copy" && rr.Common().Args[0] == v {
+				return true
+			}
+		case *ssa.Slice:
+			if rr.X == v && copyDestination(rr) {
+				return true
+			}
+		}
+	}
+	return false
 }
